@@ -70,6 +70,8 @@ class Run:
         ia, _ = core.parse_answers(out)
         # the scan's schedule is an input of the model: pass the observed per-name order on
         hints = {k: "hint scanorder " + a[len("ok order="):] for k, a in ia.items() if a.startswith("ok order=")}
+        # … and so is the set of files the pressure-driven eviction dropped (hash order)
+        hints.update({k: "hint evicted " + a[len("ok evicted="):] for k, a in ia.items() if a.startswith("ok evicted=")})
         if hints:
             cases.write(path, hints)
         rc2, out2, dt2 = core.run_model(path)
